@@ -244,12 +244,15 @@ def run(run):
                 if e.get("op") != "reset":
                     distinct_events.add(l[:l.rfind('"out"')] if '"out"' in l else l)
         accepted, tmm = run.validate("trace/Trace_Wrappers.tla", "trace/Trace_Wrappers.cfg", tr, timeout=1500)
-        txt = open(os.path.join(run.dir, "val_" + os.path.basename(tr).replace(".trace.ndjson", "") + ".tlc.out"), errors="replace").read()
-        m = re.search(r"SPEC-CLAIMED (\d+) same (\d+)", txt)
-        if not m or int(m.group(1)) == 0:
+        import glob as _glob                     # (a long trace is validated in parts: val_<label>.pNN.tlc.out)
+        base_ = os.path.join(run.dir, "val_" + os.path.basename(tr).replace(".trace.ndjson", ""))
+        txt = "".join(open(f_, errors="replace").read() for f_ in sorted(_glob.glob(base_ + ".tlc.out") + _glob.glob(base_ + ".p*.tlc.out")))
+        ms_ = re.findall(r"SPEC-CLAIMED (\d+) same (\d+)", txt)
+        claimed_, same_ = sum(int(a_) for a_, _ in ms_), sum(int(b_) for _, b_ in ms_)
+        if claimed_ == 0:
             raise ToolError("trace validation: the specification claimed a value on no event (vacuous)")
-        run.cov["trace_runs"][-1]["events_with_spec_computed_value"] = int(m.group(1))
-        run.cov["trace_runs"][-1]["events_equality_only"] = int(m.group(2))
+        run.cov["trace_runs"][-1]["events_with_spec_computed_value"] = claimed_
+        run.cov["trace_runs"][-1]["events_equality_only"] = same_
         run.cov["trace_runs"][-1]["seed"] = sd
 
     # negative controls on the trace (each must be reported AT the corrupted event - the trace also holds known findings):
